@@ -19,6 +19,10 @@ ops
   `search <q> base=[item…] ov=[item…]` → `[item…]` in iteration order; `base`/`ov` are what the two
        layers answer on their own (`ov=-` for the mutable world: the driver derives it from the layer)
        q = `all` | `t=<word>`
+  `search <query> match=[id…] base=[item…] ov=[item…]|-` → `[item…]` in iteration order; `base`/`ov` = the layers'
+       own answers to the query resolved in the layered world (leaf by leaf, by the harness); query = `if:<id>` (IntersectsFeature) | `t=<word>` |
+       `all` | `U(q,q)` | `I(q,q)` | `T.<type>(q)`; `match` = the IDs of the layered world's current features whose
+       current version satisfies the query (brute force in the harness: an oracle table for the driver)
   `refs <id> [type…]` | `rels <id>` | `cols <id>` | `areas <id>` → `[item…]` sorted by ID
 
 Property predicate: every answer = the answer computed on the shadowed feature set (overlay ∪ base
@@ -140,6 +144,34 @@ def step (st : St) (op impl : String) : St × Verdict :=
       let m := renderItems (sortItems (itemsOf st.w.each))
       (st, judgeS impl m m "each_once")
     | "search" :: q :: _ =>
+      -- a query with spatial sub-queries: the harness passes the match set of the query on the layered
+      -- world (brute force over its current features) as an oracle table; checked here: the merge / shadow
+      -- logic on it — every current feature whose ID is in the table, once, in ID order, upper version
+      if (op.splitOn "match=[").length == 2 then
+        match (segment op "match").bind parseIds, (segment op "base").bind parseItems with
+        | some matched, some baseRes =>
+          let f : Id → Bool := fun i => st.w.overlay.has i
+          let inTable := fun (x : Feat) => matched.contains x.id
+          if st.kind == "mutable" then
+            -- the overlay part cannot be observed on its own: it is read off the answer, and must consist of
+            -- current overlay features that satisfy the query; the base part and the merge are checked exactly
+            match parseItems impl with
+            | none => (st, .propfail "overlay_search no-answer")
+            | some ans =>
+              let ovPart := ans.filter fun x => f x.1
+              let ovSound := ovPart.all fun x => matched.contains x.1 && (st.w.overlay.any fun g => g.id == x.1 && g.ver == x.2)
+              let m := renderMerge (mergeIter f baseRes ovPart)
+              if ovSound && strictlySorted ovPart then (st, judgeS impl m m "overlay_search")
+              else (st, .propfail "overlay_search overlay-part")
+          else
+            match (segment op "ov").bind parseItems with
+            | none => (st, .bad)
+            | some ovRes =>
+              let m := renderMerge (mergeIter f baseRes ovRes)
+              let s := renderItems (sortItems (itemsOf (st.w.merged.filter inTable)))
+              (st, judgeS impl m s "overlay_search")
+        | _, _ => (st, .bad)
+      else
       match (segment op "base").bind parseItems with
       | none => (st, .bad)
       | some baseRes =>
